@@ -4,6 +4,7 @@ SPEC = {
     "corr_modules": ["NDB.Corr.C27"],
     "theorems": ["C27_order", "C27_equality", "C27_prefix_free", "C27_cmp", "C27_index_key"],
     "allowed_axioms": [],
+    "harness_pkg": "hx_index",
     "harness_bin": "c27",
     "n": {"quick": 6000, "thorough": 120000},
     "trusted_base": [
